@@ -174,6 +174,17 @@ def run_prover(root, prop, tier, jobs):
     # dependencies: contracts of callees used modularly are verified in the same run (transitively), so that a
     # change inside a callee that breaks the contract this property relies on is reported by this check too
     done = set((k, i) for (_r, _p, k, i, _t) in tasks)
+    extra = []
+    for key in REG.also_verify.get(prop, []):
+        for i, c in enumerate(REG.contracts.get(tuple(key), [])):
+            if c.verify and (tuple(key), i) not in done:
+                done.add((tuple(key), i))
+                extra.append((root, prop, tuple(key), i, tier))
+    if extra:
+        more = run_tasks(extra)
+        for r in more:
+            r["dependency"] = True
+        results.extend(more)
     for _round in range(6):
         need = []
         for r in results:
